@@ -15,7 +15,7 @@ CHECKS = {
             "is run through the complete knowledge lattice (8 / 1024 sets) on fresh objects, along a closed walk that uses every reveal/un-reveal edge on one "
             "long-lived object, and through all dirty operation runs of length <= 2 (incl. bulk resets, and runs on an object that served another game before: 'prelife'); at every "
             "clean state the real table is compared with the hidden game. Value-scale variants of every game (2^20 additive shift, 2^-30 units, 2^33), layered knowledge "
-            "sets at n = 5..9 (10). Bounded-exhaustive, not a proof for n >= 5 or for float inputs outside the enumerated families.",
+            "sets at n = 5..9 (10), both computers at n = 9; calls the library rejects inside dirty runs. Bounded-exhaustive, not a proof for n >= 5 or for float inputs outside the enumerated families.",
             "Trusts numpy float64 arithmetic on exactly representable values; states are snapshotted with copy.deepcopy and the first history per root and depth is re-executed from scratch; float families use the G2 tolerance.",
             "DESIGN.md §6 C01"),
     "C02": ("E1 lattice explorer",
@@ -84,7 +84,8 @@ CHECKS = {
             "Every registry key except 'convex' x n=3..7 (thorough 8) x every seed of a window moved by VERIF_SEED: runs, right size/dtype, v(empty)=0, superadditive within the "
             "documented 1e-9 tolerance decided in exact rationals, monotone for the SAM families, identical for identical seeds except the documented exceptions "
             "(the first result is scribbled over before the second call); call histories per generator in freshly forked processes: every ordered pair of player counts; "
-            "a 4096-seed (thorough 16384) determinism window for the generators with data-dependent loops.",
+            "a 4096-seed (thorough 16384) determinism window for the generators with data-dependent loops and the noisy factories; every generator with its "
+            "continuous draws owned by the harness (tail quantiles); seeded draws repeated in separate interpreters under three string-hash salts.",
             "'All seeds' is met by a complete window; 'convex' needs the absent pyfmtools.",
             "DESIGN.md §6 C10"),
     "C11": ("E2 deterministic pool + enumeration",
@@ -117,13 +118,13 @@ CHECKS = {
             "explicit-state BFS over iteration histories (state = both tables + counter) with invariants at every node of the game tree",
             "Construction for n=3 limits 1..5, n=4 limits 1..12, n=5 limits 1..3, plain/plus: ranking bijection, order, inverse; BFS over terminal-value vectors (n=3 all of "
             "{0,1,2}^terminals to depth 2/3; n=4,5 structured alphabets to depth 1-2; iterations that list only part of the terminal sets): distributions, supports, "
-            "orthogonality, plus-twin relation, partial list == full list with zeros, save/load continuation, second load of the same checkpoint.",
+            "orthogonality, plus-twin relation, partial list == full list with zeros, save/load continuation, second load of the same checkpoint, an archived copy of the checkpoint directory.",
             "float32 tolerances; states restored by assigning table copies, re-derived on fresh objects by history replay (all states at n=3).",
             "DESIGN.md §6 C14"),
     "C15": ("input enumeration",
             "complete enumeration of integer/dyadic game lattices, additive and nearly additive families and generator seed windows against exact-rational normalisation",
             "All A3-SA / A4-SA games x {plain, shift, dyadic}, additive integer and float games, nearly additive games (additive + 2^-k * superadditive), every registered "
-            "generator in a seed window (graph games in both representations), additive float games with cancelling weights: values compared with exact rational "
+            "generator in a seed window (graph games in both representations, weight matrices also big-endian and long double), additive float games with cancelling weights: values compared with exact rational "
             "normalisation under a three-zone specification; "
             "de-normalisation restores the input.",
             "Between 1e-12 and 2^-21 relative surplus either outcome is accepted.",
@@ -146,7 +147,7 @@ CHECKS = {
             "complete enumeration of coalitions (n<=10), ordered pairs (n<=6) and of two game lattices for the predicates, against Python frozenset / textbook definitions",
             "Every coalition for n=1..10 (3^n sub/super elements), every ordered pair for n<=6, object API vs id-array API vs frozenset; predicates on all 16384 + 2x32768 + "
             "2187 lattice games plus relative-1e-6 perturbations of tight constraints, the n=3 lattice in tiny / huge units, eight (rtol, atol) combinations "
-            "against the documented rule in exact rationals; augmented assignment on aliased operands.",
+            "against the documented rule in exact rationals; augmented assignment on aliased operands; from_players on containers naming a player twice; games with v(empty) != 0.",
             "Inside of the documented 1e-9 band unconstrained.",
             "DESIGN.md §6 C18"),
     "C19": ("E1 file explorer",
@@ -158,7 +159,7 @@ CHECKS = {
             "DESIGN.md §6 C19"),
     "C20": ("E3 CrashFS",
             "exhaustive fault enumeration on the real save path: kill before every OS-level operation, every torn-write offset, OSError at every operation, interrupt at traced lines",
-            "File histories with 0/1/3/12(33) earlier runs x result sizes 200 B / 3 KiB / 40 KiB x every kill point (cross-checked against a forked child that really dies), every "
+            "File histories with 0/1/3/12(33) earlier runs (and a results file that is a symbolic link, live or dangling) x result sizes 200 B / 3 KiB / 40 KiB x every kill point (cross-checked against a forked child that really dies), every "
             "torn-write byte offset (<= 2 KiB payloads; boundary + stride above), ENOSPC/EIO at every operation, fault sequences (ENOSPC then death at any later operation), "
             "KeyboardInterrupt at traced lines; afterwards data.json is the "
             "old or the complete new file, parses, keeps earlier runs, and a recovery save works.",
